@@ -82,6 +82,7 @@ def Hits.merge {desc : Bool} {k : Nat} (a b : Hits desc k) : Hits desc k := Hits
   | .range _ _ sub => KMap (Nat × Inter M sub)
   | .filter _ _ sub => Nat × Inter M sub
   | .topHits _ _ k desc => Hits desc k
+  | .composite _ _ _ sub => KMap (Nat × Inter M sub)
 
 variable {M : Type} [AddOp M]
 
@@ -95,6 +96,7 @@ def empty : (r : Req) → Inter M r
   | .range _ _ _ => KMap.empty
   | .filter _ _ sub => (0, empty sub)
   | .topHits _ _ _ _ => Hits.empty
+  | .composite _ _ _ _ => KMap.empty
 
 /-- a bucket entry: `doc_count` adds, sub-trees merge (mirrors: `impl MergeFruits for
 Intermediate{Term,Range,Histogram}BucketEntry`) -/
@@ -110,6 +112,7 @@ def merge : (r : Req) → Inter M r → Inter M r → Inter M r
   | .range _ _ sub, x, y => KMap.merge (entryMerge (merge sub)) x y
   | .filter _ _ sub, x, y => (x.1 + y.1, merge sub x.2 y.2)
   | .topHits _ _ _ _, x, y => Hits.merge x y
+  | .composite _ _ _ sub, x, y => KMap.merge (entryMerge (merge sub)) x y
 
 /-- one bucket increment per listed key (a key listed twice is incremented twice and the
 document is pushed to the sub-aggregation twice — this is what the histogram and range
@@ -127,6 +130,7 @@ def collectDoc : (r : Req) → Doc → Inter M r
   | .range f cuts sub, d => bump (merge sub) (rangeIdxs f cuts d) (collectDoc sub d)
   | .filter f v sub, d => if filterMatch f v d then (1, collectDoc sub d) else (0, empty sub)
   | .topHits f addr _ _, d => Hits.ofList (hitEntries f addr d)
+  | .composite srcs _ _ sub, d => bump (merge sub) (compKeys srcs d) (collectDoc sub d)
 
 /-- segment collection before harvest: documents are collected one after the other -/
 def collect (r : Req) (docs : List Doc) : Inter M r :=
@@ -174,6 +178,9 @@ def harvest : (r : Req) → Inter M r → Inter M r
   | .range _ _ sub, x => KMap.mapVals (harvest sub) x
   | .filter _ _ sub, x => (x.1, harvest sub x.2)
   | .topHits _ _ _ _, x => x
+  -- the per-segment eviction down to `size` buckets is not modelled: it keeps the first
+  -- `size` buckets in key order, which cannot change the first `size` of the merged result
+  | .composite _ _ _ sub, x => KMap.mapVals (harvest sub) x
 
 /-- the fruit of one segment -/
 def collectSeg (r : Req) (docs : List Doc) : Inter M r := harvest r (collect r docs)
@@ -207,6 +214,8 @@ def finalize : (r : Req) → Inter M r → Res M r
       | Option.none => (k, 0, finalize sub (empty sub))
   | .filter _ _ sub, x => (x.1, finalize sub x.2)
   | .topHits _ _ _ _, x => x.list
+  | .composite _ size after sub, x =>
+    compPage size after (x.entries.map fun e => (e.1, e.2.1, finalize sub e.2.2))
 
 /-! ### limits (mirrors: agg_limits.rs, IntermediateAggregationResults::into_final_result) -/
 
@@ -221,6 +230,7 @@ def bucketCount : (r : Req) → Res M r → Nat
   | .range _ _ sub, x => (x.map fun b => 1 + bucketCount sub b.2.2).sum
   | .filter _ _ sub, x => bucketCount sub x.2
   | .topHits _ _ _ _, _ => 0
+  | .composite _ _ _ sub, x => (x.map fun b => 1 + bucketCount sub b.2.2).sum
 
 /-- the guarded final stage: the complete result or an error, never a shortened result -/
 def finalizeGuarded (limit : Nat) (r : Req) (x : Inter M r) : Except Nat (Res M r) :=
